@@ -611,6 +611,20 @@ pub fn gen_hist<W: Write>(prop: &str, r: &mut Rng, thorough: bool, out: &mut W) 
                 writeln!(out, "{head} ops={w1} obs=nk").unwrap();
                 writeln!(out, "{head} ops={w1};{w1} obs=nk").unwrap();
                 writeln!(out, "{head} ops=weed/{recs}/{}/0/0/nofilter/0/0 obs=nk", 1 - rev).unwrap();
+                if round % 6 == 5 {
+                    // a weed file without a single k-mer (records shorter than k, or all N) is refused:
+                    // the file must be left as it was, and a following valid weed must work on it
+                    let bad = match r.below(3) {
+                        0 => s(&rand_acgt(r, k - 1)),
+                        1 => "N".repeat(k + 5),
+                        _ => {
+                            let l = 1 + r.below(k - 1);
+                            format!("{}+{}", s(&rand_acgt(r, l)), "n".repeat(k))
+                        }
+                    };
+                    writeln!(out, "{head} ops=weed/{bad}/{rev}/0/0/nofilter/0/0 obs=nk").unwrap();
+                    writeln!(out, "{head} ops=weed/{bad}/{rev}/0/0/nofilter/0/0;{w1} obs=nk").unwrap();
+                }
             }
             "C14" => {
                 let t = r.below(nsamp + 1);
